@@ -106,3 +106,31 @@ package openapi
 //@   requires p != nil && *p != nil
 //@   modifies[C17] (*p)[:], allfield(PathItem, Get), allfield(PathItem, Put), allfield(PathItem, Post), allfield(PathItem, Patch), allfield(PathItem, Delete)
 //@   ensures[C17,@path-items-kept] forall(q, string, imp(old(has(*p, q)), has(*p, q) && (*p)[q] == old((*p)[q])))
+
+// Parameters (C17: every property of a query/path/header schema becomes one declared parameter - none is dropped or merged)
+//@ func getParamInfos(s)
+//@   attr trusted
+//@   modifies nothing
+//@   ensures imp(result1 == nil, 0 <= result0.off)
+//@ func newParameterObject(in, name, description, required, so)
+//@   attr trusted
+//@   modifies nothing
+//@   ensures result != nil && fresh(result)
+//@ func paramsFromJSchema(es, in)
+//@   property C17
+//@   attr assumesafe
+//@   modifies nothing
+//@ func paramsFromJSchema loop 1
+//@   invariant[C17,@one-parameter-per-property] len(r) == rangeindex + 1 && fresh(r.arr)
+//@ extern (github.com/jsightapi/jsight-api-core/catalog/ser/openapi.parameterInfo).name(p)
+//@   attr pure deterministic nopanic
+//@ extern (github.com/jsightapi/jsight-api-core/catalog/ser/openapi.parameterInfo).annotation(p)
+//@   attr pure deterministic nopanic
+//@ extern (github.com/jsightapi/jsight-api-core/catalog/ser/openapi.parameterInfo).optional(p)
+//@   attr pure deterministic nopanic
+//@ extern (github.com/jsightapi/jsight-api-core/catalog/ser/openapi.parameterInfo).schemaObject(p)
+//@   attr pure deterministic nopanic
+//@ extern (github.com/jsightapi/jsight-api-core/catalog/ser/openapi.Error).wrapWith(e, text)
+//@   attr pure deterministic nopanic
+//@ extern (github.com/jsightapi/jsight-api-core/catalog/ser/openapi.Error).wrapWithf(e, format, a)
+//@   attr pure deterministic nopanic
